@@ -23,6 +23,8 @@ import TTModel.QTT
 import TTModel.Permute
 import TTModel.Reshape
 import TTModel.Scalar
+import TTModel.AmenStep
+import TTModel.GradApi
 /-!
 # Line-protocol driver: one operation per input line, one canonical outcome per output line.
 
@@ -62,6 +64,12 @@ def num : PM S := do
   match GRat.parse t with
   | some k => pure k
   | none => throw s!"num? {t}"
+
+def int : PM Int := do
+  let t ← next
+  match t.toInt? with
+  | some k => pure k
+  | none => throw s!"int? {t}"
 
 def many {β : Type} (k : Nat) (p : PM β) : PM (Array β) := do
   let mut out := Array.mkEmpty k
@@ -538,6 +546,10 @@ def run : PM String := do
         | "reshape" => do let N ← natList; let sh ← natList; pure (Guard.guardReshape N sh)
         | "cat" => do let a ← guardSh; let b ← guardSh; let dim ← nat; pure (Guard.guardCat a b dim)
         | "mprod" => do let x ← guardSh; let mode ← nat; let cols ← nat; pure (Guard.guardMprod x mode cols)
+        | "mprodlist" => do
+            let x ← guardSh; let nModes ← nat; let k ← nat
+            let fm ← many k (do let m ← nat; let r ← nat; let c ← nat; pure (m, r, c))
+            pure (Guard.guardMprodList x nModes fm.toList)
         | "pad" => do let d ← nat; let k ← nat; pure (Guard.guardPad d k)
         | _ => throw s!"guard2? {name}" : PM Guard.Outcome)
       match o with
@@ -621,6 +633,50 @@ def run : PM String := do
         let (r, _, F) ← matrix
         cur := (mprod cur mode r F).map freeze
       pure (showTT false cur)
+  | "gradapi" => do
+      -- `gradapi d nops (w k i… | wa | u)* (all | idx k i…)`: a history of watch / unwatch calls, then one `grad`
+      let d ← nat; let nops ← nat
+      let mut fl : Option (List Bool) := some (List.replicate d false)
+      for _ in [0:nops] do
+        let o ← next
+        match o with
+        | "wa" => fl := fl.bind (fun f => GradApi.watch f none)
+        | "u" => fl := fl.map GradApi.unwatch
+        | "w" => do
+            let k ← nat; let idx ← many k int
+            fl := fl.bind (fun f => GradApi.watch f (some idx.toList))
+        | _ => throw s!"gradop? {o}"
+      let g ← next
+      let sel ← (if g == "all" then pure none else do let k ← nat; let idx ← many k int; pure (some idx.toList))
+      match fl with
+      | none => pure "gs err-watch"
+      | some f =>
+        match GradApi.grad f sel with
+        | none => pure "gs err-grad"
+        | some l => pure ("gs " ++ toString l.length ++ " " ++ " ".intercalate (l.map (fun o => match o with | some k => toString k | none => "-")))
+  | "amenupd" => do
+      -- `amenupd core_k core_k+1 r U(rows×r) W(r×r1) (0 | 1 radd uk(rows×radd) r' Q(rows×r') R(r'×(r+radd)))`
+      let c ← core; let nxt ← core
+      let r ← nat; let (_, _, U) ← matrix; let (_, _, W) ← matrix
+      let f : Decomp.Fact S := { r := r, left := U, right := W }
+      let e ← nat
+      if e == 0 then
+        let p := Amen.updatePlain c nxt f
+        pure (showTT true [freeze p.1, freeze p.2])
+      else
+        let radd ← nat; let (_, _, uk) ← matrix
+        let r' ← nat; let (_, _, Q) ← matrix; let (_, _, R) ← matrix
+        let qr : Decomp.Oracle S := fun _ _ _ => { r := r', left := Q, right := R }
+        let p := Amen.updateEnrich qr c nxt f uk radd
+        pure (showTT true [freeze p.1, freeze p.2])
+  | "trunccore" => do
+      let c ← core; let r ← nat; let (_, _, U) ← matrix; let (_, _, W) ← matrix
+      pure (showTT true [freeze (Amen.truncCore c { r := r, left := U, right := W })])
+  | "rankres" => do
+      -- `rankres n rmax b_1 … b_{n-1}` (b_r = 1: the truncation to r columns failed the residual test)
+      let n ← nat; let rmax ← nat
+      let bs ← many (n - 1) nat
+      pure ("sc " ++ toString (Amen.rankByResidual (fun r => bs.getD (r - 1) 0 == 1) n rmax))
   | _ => throw s!"op? {op}"
 
 def processLine (line : String) : String :=
